@@ -42,6 +42,18 @@
 #define RMAX 6
 #endif
 #define MAXEV (MAXSZ / 12)
+#ifdef RSIZE
+#define RS RSIZE
+#else
+#define RS IN.rsize
+#endif
+#ifdef PA
+#define A_ PA
+#define B_ PB
+#else
+#define A_ IN.a
+#define B_ IN.b
+#endif
 
 struct inputs {
 	uint8_t buf[MAXSZ];
@@ -148,9 +160,18 @@ harness(void)
 {
 	V_LOAD_INPUTS();
 	V_ASSUME(IN.size >= 0 && IN.size <= MAXSZ);
+#ifdef RSIZE
+	V_ASSUME(IN.rsize == RSIZE);       /* look-back size fixed per query */
+#else
 	V_ASSUME(IN.rsize >= 1 && IN.rsize <= RMAX);
-#ifdef KF_SORT_CLOCK63
-	/* every position where an event can start: clock bytes 4..11, top bit of byte 11 */
+#endif
+#ifdef PA
+	V_ASSUME(IN.a == PA && IN.b == PB);  /* region position fixed per query */
+#endif
+#if defined(KF_SORT_CLOCK63) || defined(CHECKMODE)
+	/* clocks < 2^63 at every position where an event can start (clock bytes 4..11, top bit of
+	 * byte 11).  CHECKMODE: stream_step computes `clock - lastclock` in int64_t, which overflows
+	 * (formal UB, wraps in practice, no crash) only when some clock is >= 2^63: noted, excluded. */
 	for (int64_t o = 0; o + 12 <= MAXSZ; o++)
 		if (o + 12 <= IN.size)
 			V_ASSUME((IN.buf[o + 11] & 0x80) == 0);
@@ -183,32 +204,32 @@ harness(void)
 	 * itself with 3 inlined plans does not finish beyond 36 bytes.) */
 	static struct ovni_ev *ringbuf[RMAX];
 	struct ring r;
-	r.size = IN.rsize;
-	r.ev = ringbuf + (RMAX - IN.rsize);
+	r.size = RS;
+	r.ev = ringbuf + (RMAX - RS);
 	ring_reset(&r);
 	struct ovni_ev *e[MAXEV + 1];
 	int nacc = 0;
-	V_ASSUME(IN.a >= 1 && IN.a < IN.b && IN.b <= MAXEV - 1);
+	V_ASSUME(A_ >= 1 && A_ < B_ && B_ <= MAXEV - 1);
 	for (int k = 0; k < MAXEV; k++) {
 		if (nacc != k) break;
-		if (k > IN.b) break;
+		if (k > B_) break;
 		int rc = stream_step(&s);
 		V_ASSERT(rc == -1 || rc == 0 || rc == 1, "stream_step returns -1, 0 or +1");
 		if (rc != 0) break;
 		e[k] = stream_ev(&s);
 		nacc = k + 1;
-		if (k < IN.b) ring_add(&r, e[k]);
+		if (k < B_) ring_add(&r, e[k]);
 	}
-	V_ASSUME(nacc == IN.b + 1);                  /* the closing marker was reached */
+	V_ASSUME(nacc == B_ + 1);                  /* the closing marker was reached */
 	struct ovni_ev *bad0 = NULL, *next = NULL;
 	for (int k = 1; k < MAXEV; k++) {
-		if (k == IN.a) {
+		if (k == A_) {
 			bad0 = e[k];
 			V_ASSUME(starts_unsorted_region(e[k - 1]));
 		}
-		if (k >= IN.a && k < IN.b)
+		if (k >= A_ && k < B_)
 			V_ASSUME(!ends_unsorted_region(e[k]));
-		if (k == IN.b) {
+		if (k == B_) {
 			next = e[k];
 			V_ASSUME(ends_unsorted_region(e[k]));
 		}
@@ -222,9 +243,16 @@ harness(void)
 	int ret = execute_sort_plan(&sp);
 	V_ASSERT(ret == 0 || ret == -1, "C19: execute_sort_plan returns 0 or -1");
 	V_ASSERT(s.size == IN.size, "C19: the stream size is unchanged");
-	if (ret == 0) V_REACH("region-sorted");
-	if (ret == 0 && IN.b - IN.a >= 2) V_REACH("two-event-region-sorted");
+	V_REACH("plan-executed");
+#ifdef W_SORTED
+	if (ret == 0 && g_npwrite > 0) V_REACH("region-sorted");
+#if defined(PA) && PB - PA >= 2
+	if (ret == 0 && g_npwrite > 0) V_REACH("two-event-region-sorted");
+#endif
+#endif
+#ifdef W_CANNOT
 	if (ret == -1) V_REACH("cannot-find-destination");
+#endif
 #else
 	static struct ovni_ev *ringbuf[RMAX];
 	struct ring r;
